@@ -6,6 +6,7 @@
 The scenario functions below are ordinary Python: the VM interprets their bytecode, the replay simply calls them.
 """
 import math
+import queue
 from multiprocessing import Process
 
 import windpyutils.parallel.own_proc_pools as opp
@@ -13,7 +14,7 @@ import windpyutils.parallel.pools as pools
 from windpyutils.parallel.own_proc_pools import BaseFunctorWorker, FunctorPool, FactoryFunctorPool, FunctorWorkerFactory
 
 from vf.bmc.intrinsics import (v_param, v_input, v_assert, v_out_is_identity, v_out_is_chunked_permutation,
-                               v_queue_payload_free)
+                               v_queue_payload_free, v_mon_inc, v_mon_get, v_fault, v_thread_done)
 from vf.bmc.values import CInt
 
 
@@ -26,6 +27,28 @@ class IdWorker(Process, BaseFunctorWorker):
         BaseFunctorWorker.__init__(self, ctx, quota)
 
     def __call__(self, x):
+        return x
+
+
+class LifeWorker(IdWorker):
+    """IdWorker with ghost monitors on its lifecycle hooks; begin() / the functor may raise (chosen by the solver)."""
+
+    def begin(self):
+        v_mon_inc(self, "begin_calls")
+        v_assert(v_mon_get(self, "items") == 0, "item-processed-before-begin")
+        if v_fault("begin_raises"):
+            raise RuntimeError("begin failed")
+        v_mon_inc(self, "begin_done")
+
+    def end(self):
+        v_mon_inc(self, "end_calls")
+
+    def __call__(self, x):
+        v_assert(v_mon_get(self, "begin_done") == 1, "item-processed-before-begin-completed")
+        v_assert(v_mon_get(self, "end_calls") == 0, "item-processed-after-end")
+        v_mon_inc(self, "items")
+        if v_fault("functor_raises"):
+            raise ValueError("functor failed")
         return x
 
 
@@ -74,6 +97,61 @@ def scenario_pool_two_calls(pool, cs, nmax, unordered2):
     v_assert(v_queue_payload_free(pool._results_queue), "no-result-left-in-queue")
 
 
+def scenario_lifecycle(pool, cs, nmax, w0, w1, quota):
+    n = v_param("n", 0, nmax)
+    out = []
+    with pool:
+        pool.until_all_ready()
+        v_assert(v_mon_get(w0, "begin_done") == 1, "until_all_ready-returned-before-begin-completed")
+        if w1 is not None:
+            v_assert(v_mon_get(w1, "begin_done") == 1, "until_all_ready-returned-before-begin-completed")
+        for x in pool.imap(v_input(n), cs):
+            out.append(x)
+    v_assert(v_thread_done(w0), "worker-left-running-after-pool-exit")
+    v_assert(v_mon_get(w0, "begin_calls") == 1, "begin-not-exactly-once")
+    v_assert(v_mon_get(w0, "end_calls") == 1, "end-not-exactly-once")
+    if quota > 0:
+        v_assert(v_mon_get(w0, "items") <= quota * cs, "worker-exceeded-its-chunk-quota")
+    if w1 is not None:
+        v_assert(v_thread_done(w1), "worker-left-running-after-pool-exit")
+        v_assert(v_mon_get(w1, "begin_calls") == 1, "begin-not-exactly-once")
+        v_assert(v_mon_get(w1, "end_calls") == 1, "end-not-exactly-once")
+        if quota > 0:
+            v_assert(v_mon_get(w1, "items") <= quota * cs, "worker-exceeded-its-chunk-quota")
+
+
+def scenario_pool_kth_call(pool, cs, nmax, unordered, max_tokens):
+    """One call from an ARBITRARY state satisfying the inter-call invariant (induction over calls, DESIGN.md 4/C03):
+    _sending_work False, _data_cnt arbitrary, work queue empty, results queue holding only payload-free tokens,
+    no feeding thread of an earlier call alive, workers idle. The call must return its own results, terminate and
+    re-establish the invariant."""
+    n = v_param("n", 0, nmax)
+    stale = v_param("stale_tokens", 0, max_tokens)
+    prev_cnt = v_param("prev_data_cnt", 0, 3)
+    out = []
+    with pool:
+        pool._data_cnt = prev_cnt
+        pool._sending_work = False
+        for _ in range(stale):
+            try:
+                pool._results_queue.put((None, None), False)
+            except queue.Full:
+                pass
+        if unordered:
+            for x in pool.imap_unordered(v_input(n), cs):
+                out.append(x)
+        else:
+            for x in pool.imap(v_input(n), cs):
+                out.append(x)
+        if unordered:
+            v_assert(v_out_is_chunked_permutation(out, n, cs), "kth-call-results-are-a-chunkwise-permutation")
+        else:
+            v_assert(v_out_is_identity(out, n), "kth-call-results-equal-map")
+        v_assert(not pool._sending_work, "invariant-sending-work-false-after-call")
+        v_assert(v_queue_payload_free(pool._results_queue), "invariant-no-result-left-between-calls")
+        v_assert(v_queue_payload_free(pool._work_queue), "invariant-no-work-left-between-calls")
+
+
 def scenario_fmap(fm, cs, nmax, calls):
     n = v_param("n", 0, nmax)
     out = []
@@ -112,7 +190,12 @@ def make(cfg, ctx, mode, ctrl=None, restore=None):
             opp.threading = rp.FakeThreading(ctx)
             restore.append(lambda: setattr(opp, "threading", saved))
             rp.patch_thread_class(ctrl, opp.CMThread, restore)
-        ws = [wcls(ctx) for _ in range(workers)]
+        quota = cfg.get("quota", 0)
+        if cfg.get("lifecycle"):
+            wcls = LifeWorker
+            if mode == "replay":
+                wcls = rp.gate_process_class(ctrl, LifeWorker)
+        ws = [wcls(ctx, quota) if quota else wcls(ctx) for _ in range(workers)]
         for k, wk in enumerate(ws):
             wk._vf_name = "worker%d" % k
         pool = FunctorPool(ws, context=ctx, work_queue_maxsize=cfg.get("wq", 1.0), results_queue_maxsize=cfg.get("rq", None))
@@ -129,6 +212,19 @@ def make(cfg, ctx, mode, ctrl=None, restore=None):
         info["list_caps"].update({("scenario_pool_one_call", "out"): max(nmax, 1), ("scenario_pool_two_calls", "out1"): max(nmax, 1),
                                   ("scenario_pool_two_calls", "out2"): max(nmax, 1), ("chunking", "ch"): cs,
                                   ("_get_results", "chunks"): max(nchunks + 1, 1), ("_get_results", "indexes"): max(nchunks + 1, 1)})
+        if cfg.get("kth"):
+            info["list_caps"][("scenario_pool_kth_call", "out")] = max(nmax, 1)
+            mt = cfg.get("max_tokens", 1)
+            if mode == "model":
+                pool._results_queue.cap = (pool._results_queue.maxsize or (total + calls + mt)) + 1
+                info["list_caps"][("_get_results", "chunks")] = max(nchunks + 1 + mt, 1)
+                info["list_caps"][("_get_results", "indexes")] = max(nchunks + 1 + mt, 1)
+            return {"scenario": scenario_pool_kth_call, "args": (pool, CInt(cs), CInt(nmax), cfg.get("api", "imap") == "imap_unordered", CInt(mt)),
+                    "info": info}
+        if cfg.get("lifecycle"):
+            info["list_caps"][("scenario_lifecycle", "out")] = max(nmax, 1)
+            return {"scenario": scenario_lifecycle, "args": (pool, CInt(cs), CInt(nmax), ws[0], ws[1] if workers > 1 else None, CInt(quota)),
+                    "info": info, "workers": ws}
         if calls == 1:
             return {"scenario": scenario_pool_one_call, "args": (pool, CInt(cs), CInt(nmax), cfg.get("api", "imap") == "imap_unordered"), "info": info}
         return {"scenario": scenario_pool_two_calls, "args": (pool, CInt(cs), CInt(nmax), cfg.get("api", "imap") == "imap_unordered"), "info": info}
